@@ -161,10 +161,15 @@ def run(chk):
              'list of bundle dicts': lambda d: [{'type': 'bundle', 'id': 'bundle--' + G.UUID, 'objects': [ident, d]}], 'JSON text': lambda d: json.dumps(d),
              'bundle JSON text': lambda d: json.dumps({'type': 'bundle', 'id': 'bundle--' + G.UUID, 'objects': [d]})}
 
+    # reading what a permissive producer left behind: the strictness of the READER decides (explicit allow_custom=False, positional and by keyword)
+    READ_ROUTES = ('FileSystemStore(allow_custom=False).get', 'FileSystemStore(allow_custom=False).query', 'FileSystemStore(allow_custom=False).all_versions', 'FileSystemSource(allow_custom=False).get',
+                   'FileSystemStore(dir, False).get', 'MemoryStore(allow_custom=False).load_from_file', 'MemorySource(allow_custom=False).load_from_file')
+
     def store_cases():
         for name, d, sanctioned in store_inputs:
             for form in FORMS:
-                for route in ('parse', 'Environment.parse', 'MemoryStore.add', 'MemoryStore(stix_data)', 'MemorySink.add', 'FileSystemStore.add', 'Bundle(objects=)'):
+                for route in ('parse', 'Environment.parse', 'MemoryStore.add', 'MemoryStore(stix_data)', 'MemorySink.add', 'FileSystemStore.add', 'Bundle(objects=)') + READ_ROUTES:
+                    if route in READ_ROUTES and form != 'dict': continue
                     if route in ('parse', 'Environment.parse', 'Bundle(objects=)') and form in ('list', 'list of bundle dicts'): continue
                     if route == 'Bundle(objects=)' and form != 'dict': continue
                     yield (name, form, route, d, sanctioned)
@@ -189,6 +194,22 @@ def run(chk):
             elif route == 'FileSystemStore.add':
                 root = tempfile.mkdtemp(dir=tmpd); st = FileSystemStore(root, allow_custom=False); st.add(x)
                 got = any(fn.endswith('.json') for _, _, fns in __import__('os').walk(root) for fn in fns)
+            elif route in READ_ROUTES:
+                import os as _os2
+                root = tempfile.mkdtemp(dir=tmpd)
+                try:
+                    stix2.FileSystemSink(root, allow_custom=True).add(copy.deepcopy(d))
+                    bpath = _os2.path.join(root, 'all.json'); open(bpath, 'w').write(json.dumps({'type': 'bundle', 'id': 'bundle--' + G.UUID, 'objects': [d]}))
+                except Exception: return None
+                if route.startswith('FileSystemStore(dir, False)'): rd = FileSystemStore(root, False)
+                elif route.startswith('FileSystemStore'): rd = FileSystemStore(root, allow_custom=False)
+                elif route.startswith('FileSystemSource'): rd = stix2.FileSystemSource(root, allow_custom=False)
+                elif route.startswith('MemoryStore'): rd = MemoryStore(allow_custom=False); rd.load_from_file(bpath)
+                else: rd = stix2.MemorySource(allow_custom=False); rd.load_from_file(bpath)
+                if route.endswith('.query'): r = rd.query([stix2.Filter('id', '=', d['id'])]); got = r[0] if r else False
+                elif route.endswith('.all_versions'): r = rd.all_versions(d['id']); got = r[0] if r else False
+                else:
+                    r = rd.get(d['id']); got = r if r is not None else False
         except Exception as ex:
             if not O.family(ex) and type(ex).__name__ not in ('DataSourceError',): return (f'escape#{type(ex).__name__}', f'{name} as {form} through {route}: {type(ex).__name__}: {ex}', {'input': d})
             return None
@@ -199,7 +220,7 @@ def run(chk):
         return (f'strict#{route}:{name}', f'{name} given as {form} through {route} with customisation disallowed was admitted ({str(got)[:120]})', {'input': d, 'form': form, 'route': route})
     try:
         chk.bounded('strict entry points: unregistered top-level types and custom content through parse / Environment / memory and filesystem stores', list(store_cases()), check_store,
-                    classify=lambda c: c[:3], bound=f'{len(store_inputs)} inputs (10 shapes of unregistered type incl. every extension_type, 6 kinds of custom content) x 6 input forms x 7 strict entry points')
+                    classify=lambda c: c[:3], bound=f'{len(store_inputs)} inputs (10 shapes of unregistered type incl. every extension_type, 6 kinds of custom content) x 6 input forms x 7 strict entry points, and 7 strict readers of what a permissive sink wrote')
     finally:
         shutil.rmtree(tmpd, ignore_errors=True)
 
